@@ -158,9 +158,14 @@ func addLayoutRule(w *World, r *Report, rule string) {
 		return
 	}
 	okOff := false
+	lossy := ""
 	for _, o := range offs {
 		if a.provesEq(at, hi.plus(a.lin(o, at)), konst64(32)) {
-			okOff = true
+			if okR, why := losslessReading(o, at); okR {
+				okOff = true
+			} else {
+				lossy = "offset: " + why
+			}
 		}
 	}
 	if okOff {
@@ -177,7 +182,11 @@ func addLayoutRule(w *World, r *Report, rule string) {
 		for _, u := range u64Of(fn, p) {
 			nW++
 			if a.provesEq(at, hi.minus(lo), a.lin(u, at)) {
-				okW = true
+				if okR, why := losslessReading(u, at); okR {
+					okW = true
+				} else {
+					lossy = "width: " + why
+				}
 			}
 		}
 	}
@@ -185,6 +194,11 @@ func addLayoutRule(w *World, r *Report, rule string) {
 		r.holds(rule, key+"/hi-lo=width", w.pos(sl.Pos()), "length of the recorded slice = width operand is entailed at the recorder call")
 	} else {
 		r.violated(rule, key+"/hi-lo=width", w.pos(sl.Pos()), fmt.Sprintf("slice length %s: `hi - lo = width` is not entailed for any of the %d integer readings of the other stack operands", hi.minus(lo), nW))
+	}
+	if lossy != "" {
+		r.violated(rule, key+"/lossless-operands", w.pos(sl.Pos()), "the slice bounds are computed from a lossy reading of a 256-bit operand ("+lossy+"): an operand of 2^64 or more would be accepted as a small one instead of being rejected")
+	} else {
+		r.holds(rule, key+"/lossless-operands", w.pos(sl.Pos()), "offset and width are read from their 256-bit operands without dropping upper bits (overflow flag tested on the way)")
 	}
 	if a.undecided {
 		r.undecided(rule, key+"/fm", w.pos(sl.Pos()), "elimination cut off")
@@ -718,4 +732,45 @@ func init() {
 			fmt.Println(f.Name(), f.Blocks != nil, f.Pkg == sp, f.Synthetic, w.recvReturningMemo(f))
 		}
 	}
+}
+
+
+// addStateSourceRule (R9.8, shared with C10): every storage read of a journal instruction goes to the
+// EVM's current StateDB — the receiver of GetState is a load of the field EVM.StateDB — never to a copy
+// cached elsewhere (the host may replace the StateDB of a live EVM through Reset).
+func addStateSourceRule(w *World, r *Report, rule string) {
+	n := 0
+	for _, js := range w.journalSlots() {
+		fn := w.Func(forkPath(pkVM), js.execute)
+		if fn == nil {
+			continue
+		}
+		for _, f2 := range journalFamilyFuncs(fn) {
+			ord := 0
+			for _, b := range f2.Blocks {
+				for _, ins := range b.Instrs {
+					c, ok := ins.(*ssa.Call)
+					if !ok || !c.Call.IsInvoke() || typeBaseName(c.Call.Value.Type()) != "StateDB" {
+						continue
+					}
+					ord++
+					n++
+					key := fmt.Sprintf("%s/state-read#%d:%s", relName(f2), ord, c.Call.Method.Name())
+					okSrc := false
+					if u, isLoad := c.Call.Value.(*ssa.UnOp); isLoad && u.Op == token.MUL {
+						if fa, isFA := u.X.(*ssa.FieldAddr); isFA && fieldID(fa) == "P0.EVM.StateDB" {
+							okSrc = true
+						}
+					}
+					if okSrc {
+						r.holds(rule, key, w.pos(c.Pos()), "reads through the EVM's current StateDB field")
+					} else {
+						r.violated(rule, key, w.pos(c.Pos()), "the StateDB consulted is not the EVM's current one (EVM.StateDB loaded at this point) but "+rootDesc(c.Call.Value)+": after EVM.Reset replaced the StateDB the journal would decode another state than the executing contract's")
+					}
+				}
+			}
+		}
+	}
+	r.need(rule, 3)
+	_ = n
 }
